@@ -14,6 +14,10 @@
   The ChaCha20 `Cipher` calls are modelled through the RFC keystream of `XC.C03` (the refinement
   Cipher history ↦ keystream position is property C03): `XORKeyStream` from a fresh cipher = keystream from
   block 0; after `SetCounter(1)` = keystream from block 1.
+
+  Not modelled here: the buffer-overlap panics (`alias.InexactOverlap(out, plaintext/ciphertext)`,
+  `alias.AnyOverlap(out, tag)` for Open, `alias.AnyOverlap(out, additionalData)`): dst, input and ad are
+  separate byte strings in this model and separate allocations in the harness (overlap is property C53).
 -/
 import XC.Basic
 import XC.Model.C03_Block
